@@ -14,3 +14,17 @@ package utils
 //@ contract FieldToCurve
 //@   props C09
 //@   assigns nothing
+
+// ---- C19: the permutation helpers the GKR compilation relies on
+// InvertPermutation: for a permutation of 0..n-1 the result is its inverse (both compositions are the identity
+// on the entries written; res[p[i]] == i is what Compile relies on when it renumbers wires and instances)
+//@ contract InvertPermutation
+//@   props C19
+//@   requires @perm-range forall k int :: 0 <= k && k < len(permutation) ==> 0 <= permutation[k] && permutation[k] < len(permutation)
+//@   requires @perm-inj forall k int, l int :: 0 <= k && k < l && l < len(permutation) ==> permutation[k] != permutation[l]
+//@   nopanic
+//@   assigns
+//@   ensures @length len(result) == len(permutation) && fresh(result)
+//@   ensures @left-inverse forall k int :: 0 <= k && k < len(permutation) ==> result[permutation[k]] == k
+//@   loop 1 invariant @length len(res) == len(permutation)
+//@   loop 1 invariant @done forall k int :: 0 <= k && k < i ==> res[permutation[k]] == k
